@@ -34,7 +34,7 @@ class WorkerRun:
         self.t0 = time.time()
         self.last_check = self.t0
         self.killed = False
-        self.stall_s = job.get("stall_s") or 6
+        self.stall_s = job.get("stall_s") or 12
         # memory guard: 6 GiB of address space per worker is far above need (race builds need more)
         pre = "ulimit -v %d; exec " % (64 * 1024 * 1024 if race else 8 * 1024 * 1024)
         self.p = subprocess.Popen(["/bin/sh", "-c", pre + '"$0" "$@"', binary, "-test.run", "^TestWorker$", "-test.timeout", "0"],
